@@ -722,6 +722,38 @@ def rule_host_tz(ctx) -> None:
     ctx.floor("C01.CLOCK", "timestamp parsers converting with astimezone", n, 2)
 
 
+def rule_cache_clock(ctx) -> None:
+    """the stage caches and the turn-level cache manager expire entries by TTL; the clock they compare against is an injectable
+    `time_fn` that defaults to time.time.  A cache built without it on the canonical path expires by wall clock: whether turn
+    n+1 is a hit depends on how fast the host replays, and hit / miss is written to the canonical records (t1.jsonl cache_hits /
+    cache_misses / cache_used / max_delta, cache_hit in t2.jsonl and turn.jsonl)."""
+    CACHE = "clematis.engine.cache"
+    ttl_classes = {}
+    for fn in ctx.prog.module(CACHE).funcs.values():
+        if fn.name == "__init__" and "time_fn" in fn.params and fn.cls:
+            ttl_classes[fn.cls] = fn
+    ctx.floor("C01.CLOCK", "TTL cache classes with an injectable clock", len(ttl_classes), 2)
+    n_sites = 0
+    for mn in sorted(set(TIME_MODULES + ["clematis.engine.stages.t2.cache"])):
+        if mn not in ctx.prog.modules or mn == CACHE:
+            continue
+        for fn in ctx.prog.module(mn).funcs.values():
+            for x in walk_no_defs(fn.node):
+                if isinstance(x, ast.Call) and call_tail(x) in ttl_classes and isinstance(x.func, (ast.Name, ast.Attribute)):
+                    n_sites += 1
+                    init = ttl_classes[call_tail(x)]
+                    pos = [p for p in init.params if p != "self"]
+                    has = any(k.arg == "time_fn" for k in x.keywords) or (pos.index("time_fn") < len(x.args) if "time_fn" in pos else False)
+                    # a TTL of 0 / None switches expiry off: only a constant 0 is accepted as that
+                    ttl_kw = next((k.value for k in x.keywords if k.arg in ("ttl_s", "ttl_sec", "ttl")), None)
+                    off = isinstance(ttl_kw, ast.Constant) and not ttl_kw.value
+                    ctx.check(has or off, "C01.CLOCK", f"{fn.qual}/ttl-cache-on-wall-clock:{call_tail(x)}", fn.loc(x),
+                              f"{call_tail(x)} is given a clock (or has no TTL)",
+                              f"`{src(x)[:60]}` builds a TTL cache without time_fn, so it expires entries by time.time: whether a repeated turn is a hit depends on wall-clock speed "
+                              "(a host that replays slower than the TTL misses), and hit / miss is written to the canonical t1 / t2 / turn records")
+    ctx.floor("C01.CLOCK", "TTL cache constructions on the canonical path", n_sites, 3)
+
+
 def rule_process_state(ctx) -> None:
     """a fresh process and a warm one (earlier turns, another engine state) must write the same bytes: no function on the
     canonical path keeps results in an object that outlives the call by accident - a mutable default argument the body edits
@@ -758,6 +790,7 @@ def rule_process_state(ctx) -> None:
 def run(ctx) -> None:
     _REPORTED.clear()
     rule_process_state(ctx)
+    rule_cache_clock(ctx)
     rule_time(ctx)
     rule_host_tz(ctx)
     rule_hist(ctx)
